@@ -39,6 +39,8 @@ pub struct Model {
     pub pc: usize,
     /// OP_RETURN was executed: execution is over, successfully
     pub returned: bool,
+    /// end positions (in `program`) of the branches spliced in so far
+    pub open_branch_ends: Vec<usize>,
 }
 
 // ---------------------------------------------------------------------------------------------
@@ -602,7 +604,7 @@ impl Model {
     }
 
     pub fn with_stacks(program: &[El], stack: Vec<Vec<u8>>, alt: Vec<Vec<u8>>) -> Model {
-        Model { stack, alt, program: program.to_vec(), pc: 0, returned: false }
+        Model { stack, alt, program: program.to_vec(), pc: 0, returned: false, open_branch_ends: vec![] }
     }
 
     /// true when there is nothing left to execute (pc at the end, or OP_RETURN executed)
@@ -627,11 +629,10 @@ impl Model {
             // one): the script is unbalanced and fails
             El::Op(103) | El::Op(104) => StepResult::Fail("unbalanced conditional".to_string()),
             El::Op(op) => {
-                // OP_RETURN inside a branch keeps checking the grammar of what follows (without executing it): when the
-                // rest is unbalanced the outcome depends on whether this OP_RETURN is at the top level, which the
-                // spliced program no longer shows: not asserted
-                if op == 106 && unbalanced(&self.program[self.pc + 1..]) {
-                    return StepResult::Unmodelled("OP_RETURN followed by an unbalanced conditional".to_string());
+                // OP_RETURN at the top level ends the script successfully whatever follows; inside a branch it stops
+                // execution but the grammar of what follows is still checked: an unbalanced rest fails the script
+                if op == 106 && self.open_branch_ends.iter().any(|e| *e > self.pc) && unbalanced(&self.program[self.pc + 1..]) {
+                    return StepResult::Fail("OP_RETURN inside a conditional, followed by an unbalanced conditional".to_string());
                 }
                 let r = apply_opcode(op, &mut self.stack, &mut self.alt);
                 if r == StepResult::Ok {
@@ -658,7 +659,15 @@ impl Model {
                 let take_pass = if code == 99 { cond } else { !cond };
                 let branch: Vec<El> = if take_pass { pass } else { fail.unwrap_or_default() };
                 let at = self.pc + 1;
+                let added = branch.len();
                 self.program.splice(at..at, branch);
+                // elements spliced in from a branch are "inside a conditional" until the program counter passes them
+                for e in self.open_branch_ends.iter_mut() {
+                    if *e > self.pc {
+                        *e += added;
+                    }
+                }
+                self.open_branch_ends.push(at + added);
                 self.pc += 1;
                 StepResult::Ok
             }
@@ -1564,6 +1573,19 @@ mod tests {
         // a lone 5-byte item: index 0 of an empty rest is out of range
         let mut m = Model::with_stacks(&[El::Op(121)], stack_of("0000000000"), vec![]);
         assert_eq!(kind_of(&m.step()), Kind::Fail);
+        // OP_RETURN: at the top level it ends the script whatever follows; inside a branch an unbalanced rest fails
+        let mut m = Model::new(&[El::Op(106), El::Op(104)]);
+        assert_eq!(kind_of(&m.step()), Kind::Ok);
+        assert!(m.returned);
+        let mut m = Model::new(&[El::Op(0x51), El::If { code: 99, pass: vec![El::Op(106)], fail: None }, El::Op(104)]);
+        assert_eq!(kind_of(&m.step()), Kind::Ok);
+        assert_eq!(kind_of(&m.step()), Kind::Ok);
+        assert_eq!(kind_of(&m.step()), Kind::Fail);
+        let mut m = Model::new(&[El::Op(0x51), El::If { code: 99, pass: vec![El::Op(106)], fail: None }, El::Op(0x52)]);
+        assert_eq!(kind_of(&m.step()), Kind::Ok);
+        assert_eq!(kind_of(&m.step()), Kind::Ok);
+        assert_eq!(kind_of(&m.step()), Kind::Ok);
+        assert!(m.returned);
         // NUM2BIN above the resource guard
         let (mut s, mut a) = (stack_of("01 ffffff7f"), vec![]);
         assert_eq!(kind_of(&apply_opcode(128, &mut s, &mut a)), Kind::Unm);
